@@ -82,14 +82,22 @@ func (st *opState) hold(b []byte, what string) {
 	}
 }
 
-// release forgets a buffer that is about to be handed back as dst
-func (st *opState) release(b []byte) {
+const (
+	encOutput = "the Encode output"
+	decOutput = "the Decode output"
+)
+
+// release forgets a buffer that is about to be handed back as dst (or that the
+// caller is about to overwrite): the results of the same kind that live in it.
+// A result of the OTHER kind in the same memory (a Decode output that is the
+// buffer of the encoded form) stays held: it must not be there.
+func (st *opState) release(b []byte, what string) {
 	if cap(b) == 0 {
 		return
 	}
 	k := st.held[:0]
 	for _, h := range st.held {
-		if cap(h.slice) > 0 && &h.slice[:1][0] == &b[:1][0] {
+		if h.what == what && cap(h.slice) > 0 && &h.slice[:1][0] == &b[:1][0] {
 			continue
 		}
 		k = append(k, h)
@@ -174,9 +182,10 @@ func (r *runner) runOps(ops []op, base int) {
 }
 
 func (r *runner) roundTrip(ci *codecInfo, st *opState, o *op, i int) {
-	x := o.In.bytes()
+	want := o.In.bytes()
+	x := append([]byte(nil), want...) // the caller's source buffer
 	if o.EncDst.Mode == "alias" {
-		st.release(st.prevEnc)
+		st.release(st.prevEnc, encOutput)
 	}
 	encDst := o.EncDst.make(st.prevEnc)
 	enc, err, pan := safeCall(func() ([]byte, error) { return ci.shared.Encode(encDst, x) })
@@ -192,9 +201,20 @@ func (r *runner) roundTrip(ci *codecInfo, st *opState, o *op, i int) {
 		return
 	}
 	encCopy := append([]byte(nil), enc...)
-	st.hold(enc, "the Encode output")
+	st.hold(enc, encOutput)
+	if o.Src != "" {
+		// the caller fills its input buffer with the next data as soon as Encode has returned
+		scribble(x)
+		if !bytes.Equal(enc, encCopy) {
+			st.held = nil // what the caller itself overwrote is not reported a second time as the doing of a later call
+			r.fail(i, "result-aliases-source", "%s.Encode (dst %s, capacity %d; %s input of %d bytes): the encoded form changed at byte %d when the caller overwrote the INPUT buffer after the call: the result refers to src instead of being a copy",
+				ci.name, o.EncDst.Mode, cap(encDst), o.In.Gen, len(want), firstDiff(enc, encCopy))
+			return
+		}
+	}
+	x = want
 	if o.DecDst.Mode == "alias" {
-		st.release(st.prevDec)
+		st.release(st.prevDec, decOutput)
 	}
 	decDst := o.DecDst.make(st.prevDec)
 	dec, err, pan := safeCall(func() ([]byte, error) { return ci.shared.Decode(decDst, enc) })
@@ -217,7 +237,7 @@ func (r *runner) roundTrip(ci *codecInfo, st *opState, o *op, i int) {
 	if !bytes.Equal(enc, encCopy) {
 		r.fail(i, "src-clobbered", "%s.Decode modified its input", ci.name)
 	}
-	st.hold(dec, "the Decode output")
+	st.hold(dec, decOutput)
 	// the same through a FRESH instance (empty pools): both directions
 	fr := ci.fresh()
 	fdec, ferr, fpan := safeCall(func() ([]byte, error) { return fr.Decode(nil, encCopy) })
@@ -235,6 +255,46 @@ func (r *runner) roundTrip(ci *codecInfo, st *opState, o *op, i int) {
 		r.fail(i, "differs-from-fresh", "%s: the shared value does not decode what a fresh instance encoded: err=%v panic=%q, %d bytes, first difference at %d", ci.name, serr, span, len(sdec), firstDiff(sdec, x))
 		return
 	}
+	// what the caller does with the buffer of the encoded form once it is decoded
+	switch o.Src {
+	case "overwrite":
+		st.release(enc, encOutput)
+		scribble(enc)
+		if !bytes.Equal(dec, want) {
+			st.held = nil // what the caller itself overwrote is not reported a second time as the doing of a later call
+			r.fail(i, "result-aliases-source", "%s.Decode (dst %s, capacity %d; %d bytes decoding to %d): the decoded data changed at byte %d when the caller overwrote the buffer of the ENCODED form after the call: the result refers to src instead of being a copy",
+				ci.name, o.DecDst.Mode, cap(decDst), len(encCopy), len(want), firstDiff(dec, want))
+			return
+		}
+	case "reuse":
+		// buf, _ = codec.Encode(buf[:0], next): the buffer of the encoded form receives the next page
+		st.release(enc, encOutput)
+		nx := o.In.nextInput().bytes()
+		enc2, err, pan := safeCall(func() ([]byte, error) { return ci.shared.Encode(enc[:0], nx) })
+		if r.record {
+			r.res.Outcomes = append(r.res.Outcomes, outcomeTok(enc2, err))
+		}
+		if pan != "" || err != nil {
+			r.fail(i, "encode-error", "%s.Encode(%s input of %d bytes) into the buffer of the previous encoded form: err=%v panic=%q", ci.name, o.In.Gen, len(nx), err, pan)
+			return
+		}
+		if !bytes.Equal(dec, want) {
+			st.held = nil // what the caller itself overwrote is not reported a second time as the doing of a later call
+			r.fail(i, "result-aliases-source", "%s.Decode (dst %s, capacity %d; %d bytes decoding to %d): the decoded data changed at byte %d when the buffer of the ENCODED form was reused for the next Encode (buf, _ = Encode(buf[:0], next)): the result refers to src instead of being a copy",
+				ci.name, o.DecDst.Mode, cap(decDst), len(encCopy), len(want), firstDiff(dec, want))
+			return
+		}
+		st.hold(enc2, encOutput)
+		dec2, err, pan := safeCall(func() ([]byte, error) { return ci.shared.Decode(nil, enc2) })
+		if r.record {
+			r.res.Outcomes = append(r.res.Outcomes, outcomeTok(dec2, err))
+		}
+		if pan != "" || err != nil || !bytes.Equal(dec2, nx) {
+			r.fail(i, "roundtrip-mismatch", "%s.Decode(Encode(x)) != x for the input encoded into the buffer of the previous encoded form: err=%v panic=%q, %d bytes instead of %d, first difference at %d", ci.name, err, pan, len(dec2), len(nx), firstDiff(dec2, nx))
+			return
+		}
+		enc = enc2
+	}
 	st.prevEnc, st.prevDec = enc, dec
 }
 
@@ -251,7 +311,7 @@ func (r *runner) hostile(ci *codecInfo, st *opState, o *op, i int) {
 	src := hostileSrc(ci, o)
 	srcCopy := append([]byte(nil), src...)
 	if o.DecDst.Mode == "alias" {
-		st.release(st.prevDec)
+		st.release(st.prevDec, decOutput)
 	}
 	dst := o.DecDst.make(st.prevDec)
 	var m0, m1 runtime.MemStats
@@ -308,7 +368,17 @@ func (r *runner) hostile(ci *codecInfo, st *opState, o *op, i int) {
 	}
 	r.mu.Unlock()
 	if err == nil {
-		st.hold(out, "the Decode output")
+		if o.Src != "" {
+			outCopy := append([]byte(nil), out...)
+			scribble(src)
+			if !bytes.Equal(out, outCopy) {
+				st.held = nil // what the caller itself overwrote is not reported a second time as the doing of a later call
+				r.fail(i, "result-aliases-source", "%s.Decode (dst %s, capacity %d; %d bytes decoding to %d): the decoded data changed at byte %d when the caller overwrote the buffer of the ENCODED form after the call: the result refers to src instead of being a copy",
+					ci.name, o.DecDst.Mode, cap(dst), len(srcCopy), len(outCopy), firstDiff(out, outCopy))
+				return
+			}
+		}
+		st.hold(out, decOutput)
 		st.prevDec = out
 	} else {
 		st.prevDec = nil // a failed call may return dst[:0] or partial data: do not alias it
@@ -361,6 +431,9 @@ func execHistory(h *history, measure bool, progress func(int), cur *atomic.Int64
 	if h.Goroutines <= 0 {
 		r.runOps(h.Ops, 0)
 		return res
+	}
+	if h.Procs > 0 {
+		runtime.GOMAXPROCS(h.Procs)
 	}
 	// many goroutines on the same codec value at once; each runs the ops rotated by its index
 	if progress != nil {
